@@ -395,7 +395,9 @@ class Gen:
                                ("lit", "int", "1"), ("var", self.name())])
             return ("ternary", c, self.tern_branch(depth), self.tern_branch(depth))
         if k == 14:
-            return ("vardecl", ("prim", "qubit"), "qa", "multi", "qb")
+            # qubit q0, q1, ...; (docs: only qubit may be declared with commas) - 2 to 5 names
+            n = self.r.choice([2, 2, 3, 3, 4, 5])
+            return ("vardecl", ("prim", "qubit"), "qa", "multi") + tuple("q%s" % c for c in "bcde"[:n - 1])
         return ("echo", self.expr(depth))
 
     def tern_branch(self, depth):
@@ -411,7 +413,7 @@ class Gen:
         if t == "vardecl":
             parts = list(s[1:])
             if "multi" in parts:
-                return pad + "qubit qa, qb;"
+                return pad + "qubit %s;" % ", ".join(["qa"] + list(s[4:]))
             out = []
             if parts[0] == "final":
                 out.append("final")
@@ -459,7 +461,7 @@ class Gen:
 
     def stmt_sexp(self, s):
         if s[0] == "vardecl" and "multi" in s:
-            return "(vardecl (prim qubit) qa) (vardecl (prim qubit) qb)"
+            return " ".join("(vardecl (prim qubit) %s)" % n for n in ["qa"] + list(s[4:]))
         return sexp(s)
 
     # ------------------------------------------------------------------ declarations
@@ -669,5 +671,6 @@ def sexp_class(n):
 
 def fix_multi(sx):
     """blocks print multi-declarations as two vardecls"""
-    return sx.replace("(vardecl (prim qubit) qa multi qb)",
-                      "(vardecl (prim qubit) qa) (vardecl (prim qubit) qb)")
+    import re as _re
+    return _re.sub(r"\(vardecl \(prim qubit\) qa multi ((?:q[bcde] ?)+)\)",
+                   lambda m: " ".join("(vardecl (prim qubit) %s)" % n for n in ["qa"] + m.group(1).split()), sx)
